@@ -16,7 +16,9 @@ CORE = [R + f for f in (
 )]
 
 BLK = [R + "umem_alloc.c", R + "ubuf_block_mem.c", R + "ubuf_mem_common.c"]
+VS = [E + "vsched.c"]
 HARNESSES = {
+    "c07_lin": {"src": [H + "c07_lin.c"] + VS},
     "c03_block": {"src": [H + "c03_block.c"] + BLK},
     "c18_bits": {"src": [H + "c18_bits.c", R + "umem_alloc.c", R + "ubuf_block_mem.c", R + "ubuf_mem_common.c"]},
 }
@@ -26,7 +28,7 @@ DEFAULT_ASSUME = [
     "128-bit hash of the canonical state used for deduplication (collision probability negligible)",
 ]
 
-HOOK_COMMITS = []
+HOOK_COMMITS = ["2819de2"]
 NOT_YET = {}
 
 CHECKS = {
@@ -74,4 +76,39 @@ CHECKS["C03"] = {
     "bounds": {"quick": "depth 4 (cap 75 s/job), blocks <= 4 bytes, <= 4 segments, 8 jobs (4 manager configs x initial size 0/3)",
                "thorough": "depth 5 (cap 14 min/job), blocks <= 6 bytes"},
     "assumptions": DEFAULT_ASSUME + ["accessor sweep is run once per distinct canonical state (its outcome is a function of that state)"],
+}
+
+def _c07_jobs(tier):
+    jobs = []
+    if tier == "quick":
+        for st in ("fifo", "lifo", "pool"):
+            # 2 threads x <=2 ops, bound 3; 3 threads x <=2 ops at bound 2 (ABA needs 3 threads, see DESIGN 3/C07)
+            for sh in range(2):
+                jobs.append(("c07_lin", ["--struct", st, "--threads", 2, "--maxops", 2, "--maxcap", 2, "--bound", 3,
+                                         "--prog-shard", "%d/2" % sh, "--deadline", 75]))
+            for sh in range(3):
+                jobs.append(("c07_lin", ["--struct", st, "--threads", 3, "--maxops", 2 if st != "pool" else 2, "--maxcap", 2, "--bound", 2,
+                                         "--prog-shard", "%d/3" % sh, "--deadline", 75]))
+    else:
+        for st in ("fifo", "lifo", "pool"):
+            for sh in range(2):
+                jobs.append(("c07_lin", ["--struct", st, "--threads", 2, "--maxops", 3, "--maxcap", 3, "--bound", 4,
+                                         "--prog-shard", "%d/2" % sh, "--deadline", 840]))
+            for sh in range(3):
+                jobs.append(("c07_lin", ["--struct", st, "--threads", 3, "--maxops", 2, "--maxcap", 3, "--bound", 3,
+                                         "--prog-shard", "%d/3" % sh, "--deadline", 840]))
+    return jobs
+
+CHECKS["C07"] = {
+    "engine": "vsched", "design_ref": "DESIGN.md section 3 C07",
+    "technique": "stateless preemption-bounded exploration of all interleavings of real threads on the real ufifo/ulifo/upool (hooked atomics and plain ring accesses), brute-force linearizability check per execution",
+    "level_text": "All small client programs (2-3 threads, <=2-3 ops each, capacities 1-3, every prefill) are run under a controlled scheduler that enumerates every interleaving with at most k preemptions at the granularity of each atomic op and each plain ring-element access; every execution's call/return history is checked against the sequential FIFO/LIFO specification by brute force (pool: exclusive holding + conservation). Bounded, not a proof.",
+    "level_note": "Sequentially consistent interleavings only (x86-TSO argument in DESIGN 6). Outside: more than 3 threads, more than 3 ops per thread, tag wrap-around (needs 256 reuses).",
+    "jobs": {"quick": _c07_jobs("quick"), "thorough": _c07_jobs("thorough")},
+    "rule": "one 'state' = one scheduling point visited, one execution = one complete schedule of a client program; "
+            "non-trivial = executions in which two operations of different threads overlapped in real time",
+    "bounds": {"quick": "2 threads x <=2 ops, preemption bound 3; 3 threads x <=2 ops, bound 2; capacities 1-2 (pool 0-2), all prefills",
+               "thorough": "2 threads x <=3 ops bound 4; 3 threads x <=2 ops bound 3; capacities 1-3"},
+    "assumptions": DEFAULT_ASSUME + ["scheduling points: every uatomic_* and every plain uring_elem access; code between two points runs atomically",
+                                     "sequentially consistent memory (x86-TSO + locked CAS before publication)"],
 }
